@@ -519,6 +519,11 @@ func (i *interpreter) ndIntrinsic(name string, args []value) value {
 	case "NondetMapOrder":
 		ps.nondetMapOrder = args[0].(bool)
 		return nil
+	case "Freeze":
+		// everything reachable from the arguments and from every package-level variable is
+		// shared from now on: a later store into it is a SHAREDWRITE finding (C16)
+		i.freeze(args[0].([]value))
+		return nil
 	case "Symbolic":
 		return true
 	case "IsSymbolic":
